@@ -10,6 +10,7 @@ import Mathlib.Algebra.Order.Field.Basic
 import Mathlib.Algebra.Order.Ring.Rat
 import Retro.Props.C19.Period
 import Retro.Props.C19.Unit
+import Retro.Props.C19.UniformF32
 
 namespace Retro.Props.C19
 open Retro Retro.Rand
